@@ -262,7 +262,10 @@ def run_check(pid, tier, repo, seed, opts):
         if rp in seen:
             continue
         seen.add(rp)
-        lines.append('VIOLATION property=%s replay=%s%s' % (pid, rp, suffix))
+        if len(seen) <= 12:
+            lines.append('VIOLATION property=%s replay=%s%s' % (pid, rp, suffix))
+    if len(seen) > 12:
+        lines.append('(%d further failed obligations of %s not listed; all of them are in the evidence file and have replay files under replay/found/)' % (len(seen) - 12, pid))
     # ---- evidence
     proof_complete = not sat and not unknown and not undecided_units and not checker_errors and obs
     by_kind = {}
